@@ -31,7 +31,8 @@ theorem groups_tail (ts : List Str) (hne : âˆ€ t âˆˆ ts, vttEncode t â‰  []) : â
     simp only [List.flatMap_cons, List.cons_append, List.nil_append, List.foldl_cons, vttStep, hf, Bool.not_false, Bool.not_true,
       Bool.false_eq_true, if_false, hc, ne_eq, not_true_eq_false, decide_false, Bool.and_false, hte]
     have h := ih (fun x hx => hne x (by simp [hx])) { st with s := st.s ++ ['\n'] ++ vttEncode t, cur := 0, prevIsText := true, first := false } rfl rfl
-    have hs : ({ groups := st.groups, s := st.s ++ ['\n'] ++ vttEncode t, cur := 0, prevIsText := true, first := false } : GState)
+    have hs : ({ groups := st.groups, s := st.s ++ ['\n'] ++ vttEncode t, cur := 0, prevIsText := true, first := false,
+                 openTags := st.openTags } : GState)
         = { st with s := st.s ++ ['\n'] ++ vttEncode t, cur := 0, prevIsText := true, first := false } := rfl
     rw [hs, h]
     simp
